@@ -1,6 +1,7 @@
 package main
 
 import (
+	"os/exec"
 	"encoding/json"
 	"flag"
 	"fmt"
@@ -294,19 +295,46 @@ func cmdCheck(args []string) int {
 	if len(targets) == 0 && len(expected) == 0 {
 		return fail("none", "no contract clause is labelled "+*prop)
 	}
-	results := make([]*FuncResult, len(targets))
-	done := make(chan int, len(targets))
-	sem := make(chan bool, 8)
-	for i := range targets {
-		go func(i int) {
-			sem <- true
-			results[i] = v.generate(targets[i])
-			<-sem
-			done <- i
-		}(i)
+	// The check verifies the labelled functions and, transitively, every repo function whose (non-trusted) contract
+	// is applied at one of their call sites: no assumption about repo code is used that the same check does not prove.
+	var results []*FuncResult
+	inSet := map[string]bool{}
+	for _, t := range targets {
+		inSet[t.Full] = true
 	}
-	for range targets {
-		<-done
+	round := targets
+	for len(round) > 0 {
+		rr := make([]*FuncResult, len(round))
+		done := make(chan int, len(round))
+		sem := make(chan bool, 8)
+		for i := range round {
+			go func(i int) {
+				sem <- true
+				rr[i] = v.generate(round[i])
+				<-sem
+				done <- i
+			}(i)
+		}
+		for range round {
+			<-done
+		}
+		results = append(results, rr...)
+		var next []*BoundContract
+		for _, r := range rr {
+			for _, a := range r.Applied {
+				if inSet[a] {
+					continue
+				}
+				bc := v.contracts[a]
+				if bc == nil || bc.C.IsIface || bc.C.Trusted || bc.Func == nil || bc.Func.Pkg() == nil || !strings.HasPrefix(bc.Func.Pkg().Path(), repoModule) {
+					continue
+				}
+				inSet[a] = true
+				next = append(next, bc)
+			}
+		}
+		sort.Slice(next, func(i, j int) bool { return next[i].Full < next[j].Full })
+		round = next
 	}
 	var obls []*Obligation
 	var unclaimed []*Obligation
@@ -454,6 +482,18 @@ func cmdCheck(args []string) int {
 			lines = append(lines, fmt.Sprintf("VIOLATION property=%s replay=%s no-failing-input-found", *prop, p))
 		}
 	}
+	// thorough tier: the regression replays of defects that were fixed (real inputs against the real code, injected with
+	// go test -overlay; nothing is written into the repository). A replay that fails again is a violation with a failing input.
+	var replayNotes []string
+	if *tier == "thorough" {
+		rv, rn := runReplays(*prop, *repo)
+		replayNotes = rn
+		for _, f := range rv {
+			violations++
+			lines = append(lines, fmt.Sprintf("VIOLATION property=%s replay=%s", *prop, f))
+		}
+	}
+	notes = append(notes, replayNotes...)
 	for _, l := range lines {
 		fmt.Println(l)
 	}
@@ -611,4 +651,60 @@ func gcPercent() int {
 		return n
 	}
 	return 800
+}
+
+type replayEntry struct {
+	File     string `json:"file"`
+	Property string `json:"property"`
+	Dir      string `json:"dir"`
+	Expect   string `json:"expect"`
+	Race     bool   `json:"race"`
+}
+
+// runReplays runs the replay tests of fixed defects of one property against the tree under check.
+// It returns the replay files that fail again, and notes for the evidence file.
+func runReplays(prop, repo string) (failed []string, notes []string) {
+	dir := filepath.Join(verifRoot, "replay_tests")
+	data, err := os.ReadFile(filepath.Join(dir, "INDEX.json"))
+	if err != nil {
+		return nil, []string{"no replay index"}
+	}
+	var idx []replayEntry
+	if json.Unmarshal(data, &idx) != nil {
+		return nil, []string{"replay index unreadable"}
+	}
+	for _, e := range idx {
+		if e.Property != prop || e.Expect != "pass" {
+			continue
+		}
+		tmp, err := os.MkdirTemp("", "govc-replay")
+		if err != nil {
+			continue
+		}
+		ov := filepath.Join(tmp, "ov.json")
+		target := filepath.Join(repo, e.Dir, "zz_verif_replay_test.go")
+		src := filepath.Join(dir, e.File)
+		os.WriteFile(ov, []byte(fmt.Sprintf(`{"Replace": {%q: %q}}`, target, src)), 0o644)
+		args := []string{"test", "-overlay", ov, "-vet=off", "-count=1", "-timeout", "120s", "-run", "TestVerifReplay"}
+		if e.Race {
+			args = append(args, "-race")
+		}
+		args = append(args, "./"+e.Dir+"/")
+		cmd := exec.Command("go", args...)
+		cmd.Dir = repo
+		cmd.Env = append(os.Environ(), "GOFLAGS=-mod=mod", "GOPROXY=off", "GOSUMDB=off", "GOTOOLCHAIN=local")
+		out, err := cmd.CombinedOutput()
+		os.RemoveAll(tmp)
+		text := string(out)
+		switch {
+		case err == nil:
+			notes = append(notes, "replay "+e.File+": passes (the fixed defect has not returned)")
+		case strings.Contains(text, "--- FAIL"):
+			failed = append(failed, src)
+			notes = append(notes, "replay "+e.File+": FAILS again: "+trunc(text, 400))
+		default:
+			notes = append(notes, "replay "+e.File+": could not be built or run (not counted): "+trunc(text, 300))
+		}
+	}
+	return failed, notes
 }
